@@ -322,6 +322,10 @@ class Inliner:
                                         # constants of the helper's own module that its body refers to travel with it
                                         hobj.module_consts = {st2.targets[0].id: st2.value for st2 in other.body if isinstance(st2, ast.Assign) and len(st2.targets) == 1
                                                               and isinstance(st2.targets[0], ast.Name) and isinstance(st2.value, ast.Constant)}
+                                        # module-level definitions of the helper's module that its body calls must stay resolvable after inlining
+                                        top = {d.name for d in other.body if isinstance(d, (ast.FunctionDef, ast.ClassDef))} | \
+                                              {t.id for d in other.body if isinstance(d, ast.Assign) and not isinstance(d.value, ast.Constant) for t in d.targets if isinstance(t, ast.Name)}
+                                        hobj.module_needs = (rp, sorted({n.id for n in ast.walk(ch) if isinstance(n, ast.Name) and n.id in top and n.id != al.name}))
                                         self.new[('f', al.asname or al.name)] = hobj
                                     except NotInlinable as e:
                                         self.skipped.append((al.name, str(e)))
@@ -582,4 +586,19 @@ class Inliner:
 
 def apply(tree, relpath, loader=None):
     inl = Inliner(tree, relpath, loader).run()
+    # names of a helper's own module used by its inlined body become synthetic imports of the receiving module
+    used = {d[1] for d in inl.done}
+    bound = {n.name for n in tree.body if isinstance(n, (ast.FunctionDef, ast.ClassDef))} | \
+            {t.id for n in tree.body if isinstance(n, ast.Assign) for t in n.targets if isinstance(t, ast.Name)} | \
+            {(al.asname or al.name).split('.')[0] for n in tree.body if isinstance(n, (ast.Import, ast.ImportFrom)) for al in n.names}
+    for h in inl.new.values():
+        mn = getattr(h, 'module_needs', None)
+        if h.qual in used and mn and mn[1]:
+            names = [x for x in mn[1] if x not in bound]
+            if names:
+                modname = mn[0][:-3].replace('/', '.')
+                if modname.endswith('.__init__'):
+                    modname = modname[:-9]
+                tree.body.insert(0, ast.ImportFrom(module=modname, names=[ast.alias(name=x, asname=None) for x in names], level=0))
+                bound |= set(names)
     return inl.done, inl.skipped
